@@ -4,6 +4,7 @@ Reply format: `<model>\t<spec>`; spec patterns: `*` anything, `a|b` alternatives
 
   parse <hex>          parseRESP looped over the byte stream (hook child of the real binary)
   conn <hex>           the same bytes sent to the real server over TCP: does it survive, what did it allocate
+  echo <hex>           ECHO / PING commands with lines of any length sent to the real server: the exact replies
   zero <hex>           frames that carry no command (`*0`, `*-1`, blank lines) sent to the real server, then
                        `PING`: handleConn must skip them and still answer `+PONG`
   cmd <hex> <hex> …    one command (RESP array of bulk strings) on the current connection
@@ -44,6 +45,7 @@ def setCfg (st : DSt) (kv : String) : Option DSt :=
     | "resp.lenParser" => if v == "atoi" then some st else none
     | "resp.negArrayNil" => if v == "true" then some st else none
     | "resp.negBulkNil" => if v == "true" then some st else none
+    | "resp.lineRead" => if v == "unbounded" then some st else none
     | "resp.lineTerm" => if v == "crlf" then some st else none
     | "resp.crlfAfterBulk" => if v == "true" then some st else none
     | "gw.commands" => if v == "PING,ECHO,GET,SET,DEL,MGET,MSET,INCR,DECR,INCRBY,DECRBY,EXISTS,QUIT" then some st else none
@@ -129,6 +131,16 @@ def replyStr : Reply → String
   | .quit => "+OK/closed"
   | .closed => "closed"
 
+def cksum (b : Bytes) : Nat := b.foldl (fun a x => (a * 31 + x) % 4294967296) 0
+
+/-- reply of `execute` to `ECHO x` / `PING` (the only commands the `echo` op uses) -/
+def echoReply (f : List Arg) : Option String :=
+  match f with
+  | [some name] => if upper name = str "PING" then some "pong" else none
+  | [some name, some x] =>
+    if upper name = str "ECHO" then some s!"bulk{x.length}/{cksum x}" else none
+  | _ => none
+
 def step (st : DSt) (toks : List String) : DSt × String :=
   match toks with
   | "cfg" :: kvs =>
@@ -164,6 +176,25 @@ def step (st : DSt) (toks : List String) : DSt × String :=
         | .oom => "crash"
         | .err e => if e == .eof && cmds == [[some [80, 73, 78, 71]]] then "pong" else "n/a"
       (st, out ++ "\t" ++ (if out == "n/a" then "*" else "pong"))
+    | none => (st, "bad-op")
+  | ["echo", h] =>
+    match bytesOf? h with
+    | some b =>
+      -- ECHO / PING commands (inline or arrays, any line length) on one connection of the real server
+      let r := parseConn st.pc b
+      let good := parseConn PCfg.good b
+      let cmds := r.frames.filter (fun f => !f.isEmpty)
+      let out := match r.fin with
+        | .panic => "crash"
+        | .oom => "crash"
+        | .err e =>
+          if e == .eof then
+            match cmds.mapM echoReply with
+            | some rs => ",".intercalate rs
+            | none => "n/a"
+          else "n/a"
+      let spec := if out == "n/a" || !(wellFormedAs b good.frames) then "*" else out
+      (st, out ++ "\t" ++ spec)
     | none => (st, "bad-op")
   | "cmd" :: hs =>
     match hs.mapM bytesOf? with
